@@ -232,6 +232,9 @@ class Harness:
                 return k
         return repr(a)
 
+    def refstate(self, w):
+        return tuple(w.ref)
+
     def outcome(self, w):
         return w.last
 
